@@ -1,7 +1,7 @@
 (* Properties/C02.v — One addressing scheme: flatten, lookup, search and JSON pointers agree. *)
 From Coq Require Import List String Bool ZArith Arith.
 From YT Require Import Base.Str Base.KV Model.Doc Model.Dom Model.Pointer Model.Path Model.Builder
-  Proofs.StrProofs Proofs.PathProofs.
+  Proofs.StrProofs Proofs.PathProofs Proofs.PropsPathProofs.
 Import ListNotations.
 Local Open Scope list_scope.
 
@@ -53,10 +53,33 @@ Proof.
 Qed.
 Print Assumptions C02_search_spec.
 
-(* Full statements not yet proved (decided by the correspondence on every run, see DESIGN.md C02):
-   - pointer_flatten : In (p,v) (flatten d) -> pointer_of_prop_path p = Some toks /\
-                       snd (ptr_eval toks d) = Some (Leaf v)
-   - props_parse_steps : props_parse (render_steps sigma) has one segment per step
+(* props.ParsePath of a flatten-style path has exactly one segment per step (a key segment per
+   member step, an index segment per list step) *)
+Theorem C02_props_parse_steps : forall k r,
+  forallb step_safe (K k :: r) = true ->
+  props_parse (render_steps (K k :: r)) = map seg_of (K k :: r).
+Proof. exact props_parse_steps. Qed.
+Print Assumptions C02_props_parse_steps.
+
+(* every flattened (path, leaf) pair is the rendering of a position sigma of the document whose
+   ParsePath has one segment per step and — list indexes below 10^18 (at most 18 digits) — whose
+   JSON-pointer translation (xform.PointerFromPropPathString) evaluates to that very leaf *)
+Theorem C02_pointer_flatten : forall kvs p v,
+  wf (Con kvs) = true -> keys_safe (Con kvs) = true ->
+  In (p, v) (flatten (Con kvs)) ->
+  exists sigma, p = render_steps sigma /\ In (sigma, v) (flatten_steps (Con kvs)) /\
+    props_parse p = map seg_of sigma /\
+    (idx_small sigma ->
+     exists toks, pointer_of_prop_path p = Some toks /\ snd (ptr_eval toks (Con kvs)) = Some (Leaf v)).
+Proof. exact pointer_flatten. Qed.
+Print Assumptions C02_pointer_flatten.
+
+(* canonical list indexes: the decimal rendering of a number is its own canonical index *)
+Theorem C02_canon_index_nat2s : forall i, List.length (la (nat2s i)) <= 18 -> canon_index (nat2s i) = Some i.
+Proof. exact canon_index_nat2s. Qed.
+Print Assumptions C02_canon_index_nat2s.
+
+(* Not proved (decided by the correspondence on every run, see DESIGN.md C02):
    - rebuild_any_order : every_item_has_scalar d -> Permutation l (flatten d) ->
                          flatten (fold_left add_value_at l empty) = flatten d   (as sets) *)
 
